@@ -5,6 +5,7 @@ import LinOp.C15.Gen
 ```
 mro <Class>                               -> A,B,C | none
 resolve <Class> <method>                  -> <DefiningClass> | none
+dispk <torch-fn> <arg>;…|- <kwarg>;…    -> as disp, tensor-like keyword arguments listed separately
 disp <torch-fn> <arg>;<arg>;…             -> call <Definer>.<method> swapped=<0|1> args=<arg>;… | raise <Kind> | native
 val <torch-fn> <xarg> <yarg> <alpha|n> <X> <Y>   -> model=<ok M|err kind> spec=<ok M|err kind|none>
 ```
@@ -58,6 +59,10 @@ def stepLine (_ : Unit) (line : String) : Unit × String :=
       match (as.splitOn ";").mapM parseArg with
       | some args => showOutcome (dispatch T f args ())
       | none => "bad-args"
+    | ["dispk", f, as, ks] =>
+      match (if as = "-" then some [] else (as.splitOn ";").mapM parseArg), (ks.splitOn ";").mapM parseArg with
+      | some args, some kwops => showOutcome (dispatchK T f args kwops ())
+      | _, _ => "bad-args"
     | ["val", f, xa, ya, al, xs, ys] =>
       match parseArg xa, parseArg ya, parseMat? xs, parseMat? ys with
       | some xa, some ya, some X, some Y =>
